@@ -76,7 +76,7 @@ impl Server {
             let message = Server::_ERROR_REQUEST_TARGET_IS_NOT_IN_ORIGIN_FORM.to_string();
             eprintln!("unable to serve request: {}", &message);
 
-            let raw_response = Server::bad_request_response(message);
+            let raw_response = Server::not_origin_form_response(message, request);
             let boxed_stream = stream.write_all(raw_response.borrow());
             if boxed_stream.is_ok() {
                 let boxed_flush = stream.flush();
@@ -102,6 +102,24 @@ impl Server {
         };
 
         raw_response
+    }
+
+    // 400 for a parsed request: generated for the request itself, so that HEAD and OPTIONS
+    // get no body and the CORS headers match the request
+    fn not_origin_form_response(message: String, request: Request) -> Vec<u8> {
+        let content_range = Range::get_content_range(
+            Vec::from(message.as_bytes()),
+            MimeType::TEXT_PLAIN.to_string()
+        );
+
+        let header_list = Header::get_header_list(&request);
+        let error_response: Response = Response::get_response(
+            STATUS_CODE_REASON_PHRASE.n400_bad_request,
+            Some(header_list),
+            Some(vec![content_range])
+        );
+
+        Response::generate_response(error_response, request)
     }
 
     pub fn bad_request_response(message: String) -> Vec<u8> {
@@ -194,7 +212,7 @@ impl Server {
         if !request.request_uri.starts_with(SYMBOL.slash) {
             let message = Server::_ERROR_REQUEST_TARGET_IS_NOT_IN_ORIGIN_FORM.to_string();
 
-            let raw_response = Server::bad_request_response(message.clone());
+            let raw_response = Server::not_origin_form_response(message.clone(), request);
             let boxed_stream = stream.write_all(raw_response.borrow());
             if boxed_stream.is_ok() {
                 let boxed_flush = stream.flush();
